@@ -4,7 +4,10 @@ open GV GV.C09
 /-
 Line protocol of C09 (one whole case = process + request history per line):
 
-  case <new|old> V <v:size,...(sorted)> P <proc> R <addIn> <addOut> <all:0|1> {T <leaf> <out> <in> <mat>}* R ...
+  case <new|old> V <v:size,...(sorted)> P <proc> R <addIn> <addOut> <all:0|1> [S <v:size,...>] {T <leaf> <out> <in> <mat>}* R ...
+
+  `S`: the sizes of the variables at THIS request (size-agnostic disciplines: the sizes are data of the input
+  point, the same process is linearized at vectors of other lengths); without `S` the sizes of `V` hold.
 
   proc (prefix form):  L <id> <ins> <outs> | C <n> proc*n | P <n> proc*n | A <sums> <n> proc*n
   name lists: comma separated, `-` when empty;  mat: rows `;`, entries `,`
@@ -89,10 +92,12 @@ partial def addDiff (p : Proc) (st : St) (xs os : List String) : St :=
 structure Ctx where
   old : Bool
   vars : List String
-  size : String → Nat
+  sizes : List (String × Nat)
   tables : List ((Nat × String × String) × Mat)
 
-def Ctx.fill (c : Ctx) (o x : String) : Mat := Mat.zeros (c.size o) (c.size x)
+/-- `_init_jacobian(fill_missing_keys=True)`: zero blocks from the sizes of the current request
+    (`zeroFillOf` of Model/C09, section Sizes). -/
+def Ctx.fill (c : Ctx) (o x : String) : Mat := zeroFillOf c.sizes c.sizes o x
 
 /-- Build a `DJac` whose blocks are given by an association list. -/
 def tableJac (c : Ctx) (rows : List String) (cols : List String)
@@ -194,6 +199,7 @@ structure Req where
   addIn : List String
   addOut : List String
   all : Bool
+  sizes : Option (List (String × Nat))
   tables : List ((Nat × String × String) × Mat)
 
 partial def parseTables : List String → Option (List ((Nat × String × String) × Mat) × List String)
@@ -204,27 +210,32 @@ partial def parseTables : List String → Option (List ((Nat × String × String
     pure (((n, o, i), mat) :: ts, rest)
   | rest => some ([], rest)
 
-partial def parseReqs : List String → Option (List Req)
-  | [] => some []
-  | "R" :: i :: o :: a :: rest => do
-    let (ts, rest) ← parseTables rest
-    let rs ← parseReqs rest
-    pure (⟨names i, names o, a == "1", ts⟩ :: rs)
-  | _ => none
-
 def parseSizes (s : String) : Option (List (String × Nat)) :=
   (names s).mapM (fun t => match t.splitOn ":" with
     | [v, n] => n.toNat?.map (fun k => (v, k))
     | _ => none)
 
+partial def parseReqs : List String → Option (List Req)
+  | [] => some []
+  | "R" :: i :: o :: a :: "S" :: sz :: rest => do
+    let sizes ← parseSizes sz
+    let (ts, rest) ← parseTables rest
+    let rs ← parseReqs rest
+    pure (⟨names i, names o, a == "1", some sizes, ts⟩ :: rs)
+  | "R" :: i :: o :: a :: rest => do
+    let (ts, rest) ← parseTables rest
+    let rs ← parseReqs rest
+    pure (⟨names i, names o, a == "1", none, ts⟩ :: rs)
+  | _ => none
+
 def runCase (old : Bool) (sizes : List (String × Nat)) (p : Proc) (reqs : List Req) : String :=
   let vars := sizes.map (·.1)
-  let size := fun v => match sizes.find? (fun e => e.1 == v) with | some e => e.2 | none => 0
   let rec go (st : St) (rs : List Req) (acc : List String) : List String :=
     match rs with
     | [] => acc.reverse
     | r :: rs =>
-      let c : Ctx := ⟨old, vars, size, r.tables⟩
+      -- the zero blocks are formed from the sizes of the CURRENT request (`sizesAtRequest` of Model/C09)
+      let c : Ctx := ⟨old, vars, r.sizes.getD sizes, r.tables⟩
       let st := if r.addIn.isEmpty && r.addOut.isEmpty then st else
         (let st := if r.addIn.isEmpty then st else addDiff p st r.addIn []
          if r.addOut.isEmpty then st else addDiff p st [] r.addOut)
